@@ -293,3 +293,55 @@ macro_rules! probes_only {
         }
     };
 }
+
+/// `LossyFrom` between two primitives (the crate implements it for the widening integer conversions, bool -> integer,
+/// integer -> float); impl detection as for the fixed-point probes
+pub struct ProbePP<S, D>(core::marker::PhantomData<(S, D)>);
+impl<S, D> NoLossy for ProbePP<S, D> {}
+impl<S: PrimVal, D: PrimVal + substrate_fixed::traits::LossyFrom<S>> ProbePP<S, D> {
+    pub fn lossy_(a: u128) -> vcore::Out {
+        D::lossy_from(S::from_raw(a)).to_out()
+    }
+}
+macro_rules! pp_row {
+    ($S:ty, $d:expr, $a:expr) => {
+        match $d {
+            0 => <ProbePP<$S, i8>>::lossy_($a),
+            1 => <ProbePP<$S, i16>>::lossy_($a),
+            2 => <ProbePP<$S, i32>>::lossy_($a),
+            3 => <ProbePP<$S, i64>>::lossy_($a),
+            4 => <ProbePP<$S, i128>>::lossy_($a),
+            5 => <ProbePP<$S, isize>>::lossy_($a),
+            6 => <ProbePP<$S, u8>>::lossy_($a),
+            7 => <ProbePP<$S, u16>>::lossy_($a),
+            8 => <ProbePP<$S, u32>>::lossy_($a),
+            9 => <ProbePP<$S, u64>>::lossy_($a),
+            10 => <ProbePP<$S, u128>>::lossy_($a),
+            11 => <ProbePP<$S, usize>>::lossy_($a),
+            13 => <ProbePP<$S, f32>>::lossy_($a),
+            14 => <ProbePP<$S, f64>>::lossy_($a),
+            _ => vcore::Out::C(NOIMPL),
+        }
+    };
+}
+/// `D::lossy_from(s)` for primitive indices (as in PRIMS); NOIMPL where the crate has no impl
+pub fn prim_lossy(src: usize, dst: usize, a: u128) -> vcore::Out {
+    #[allow(unused_imports)]
+    use crate::ops::NoLossy;
+    match src {
+        0 => pp_row!(i8, dst, a),
+        1 => pp_row!(i16, dst, a),
+        2 => pp_row!(i32, dst, a),
+        3 => pp_row!(i64, dst, a),
+        4 => pp_row!(i128, dst, a),
+        5 => pp_row!(isize, dst, a),
+        6 => pp_row!(u8, dst, a),
+        7 => pp_row!(u16, dst, a),
+        8 => pp_row!(u32, dst, a),
+        9 => pp_row!(u64, dst, a),
+        10 => pp_row!(u128, dst, a),
+        11 => pp_row!(usize, dst, a),
+        12 => pp_row!(bool, dst, a),
+        _ => vcore::Out::C(NOIMPL),
+    }
+}
